@@ -11,7 +11,7 @@ rm -rf "$OUT"; mkdir -p "$OUT"
 git -C /repo worktree remove --force "$WT" >/dev/null 2>&1
 git -C /repo worktree add -q --detach "$WT" HEAD || exit 2
 case "$CHANGE" in
-  -R:*) C=${CHANGE#-R:}; (git -C /repo show "$C" | git -C "$WT" apply -R) || { echo "$NAME: cannot revert $C"; git -C /repo worktree remove --force "$WT"; exit 3; } ;;
+  -R:*) C=${CHANGE#-R:}; (git -C /repo show "$C" | git -C "$WT" apply -R 2>/dev/null) || (git -C /repo show "$C" | git -C "$WT" apply -R --3way >/dev/null 2>&1) || { echo "$NAME: cannot revert $C"; git -C /repo worktree remove --force "$WT"; exit 3; } ;;
   *) git -C "$WT" apply "$CHANGE" || { echo "$NAME: cannot apply $CHANGE"; git -C /repo worktree remove --force "$WT"; exit 3; } ;;
 esac
 for P in "$@"; do
